@@ -43,5 +43,18 @@ Proof. split; [vm_compute; reflexivity|]. split; [reflexivity|]. split; [exists 
   vm_compute. reflexivity. Qed.
 Print Assumptions C10_exact_fit_refuted.
 
+(* the same gap seen as a refusal (recorded finding C10-exact-fit-refusal): with the single-symbol list [8x64] (24 data
+   codewords) the 34-character message below is refused although the 24-codeword Text stream (33 characters in 11
+   triples, then '!' as one trailing ASCII codeword with the implied unlatch) is accepted by the crate's own decoder *)
+Definition refusal_input : list N :=
+  [110; 48; 55; 102; 97; 56; 51; 57; 103; 32; 54; 108; 108; 98; 48; 109; 101; 49; 49; 118; 116; 119; 51; 122; 51; 49; 112; 54; 54; 116; 55; 120; 56; 33].
+Definition refusal_stream : list N :=
+  [239; 169; 108; 120; 253; 45; 221; 20; 106; 158; 157; 165; 86; 36; 218; 226; 64; 44; 166; 64; 50; 74; 149; 34].
+Theorem C10_refusal_refuted :
+  decode_data refusal_stream = Ok refusal_input /\ length refusal_stream = 24%nat /\ num_data_codewords Rect8x64 = 24 /\
+  encode_eci stable_sorter refusal_input [Rect8x64] 63 true false None = Err TooMuchOrIllegalData.
+Proof. split; [vm_compute; reflexivity|]. split; [reflexivity|]. split; [reflexivity|]. vm_compute. reflexivity. Qed.
+Print Assumptions C10_refusal_refuted.
+
 (* NOT a theorem: optimality of the planner outside that class; it is decided per case against an exact search over
    all legal streams (tools/props/refenc.py), any miss outside the recorded class is a violation. *)
